@@ -461,6 +461,86 @@ def project_mkdir2(res, case_spec):
     return out
 
 
+def project_remove2(res, case_spec):
+    """relevant syscalls of real remove_all calls (any backend; the in-root resolution of the parent is skipped) -> TraceRemove2 events"""
+    cid = str(res.get("id"))
+    calls = case_spec.get("calls", [])
+    procs = case_spec.get("procs", 1)
+    by_proc = {}
+    for ci, c in enumerate(calls):
+        by_proc.setdefault(c.get("proc", 0), []).append((ci, c))
+    if any(len(v) != 1 for v in by_proc.values()) or sorted(by_proc) != list(range(procs)):
+        return None
+    init = snap_event("init", cid, res["init"])
+    frames, started, fresh = {}, set(), set()
+    out = [init]
+    outs = res.get("out") or []
+    for e in res.get("events", []):
+        who = e.get("who", 0)
+        if e["ev"] == "mark":
+            if e["tag"] == "DONE" or (procs == 1 and e["tag"] == "END" and who in started):
+                if who in frames and frames[who] == "ended":
+                    continue
+                ci = by_proc[who][0][0]
+                r = ((outs[who] if who < len(outs) else {}).get("results") or [])
+                r = r[ci] if ci < len(r) else {}
+                en = blank("end", cid)
+                en["who"] = who
+                o = lib_outcome(r)
+                en["ret"] = 0 if o[0] == "ok" else -1
+                en["kind"] = "" if o[0] == "ok" else str(o[1])
+                if who not in frames:
+                    return None           # the parent directory did not resolve: nothing of remove_all ran
+                out.append(en)
+                frames[who] = "ended" if False else frames[who]
+                started.add(("ended", who))
+            continue
+        if e["ev"] == "att":
+            a = project_fs(dict(res, events=[e], out=[]), dict(calls=[]))
+            out += [x for x in a if x["ev"] == "att"]
+            continue
+        if e["ev"] != "sys" or not e.get("rel") or e.get("call") is None:
+            continue
+        if ("ended", who) in started:
+            continue
+        nr = e["nr"]
+        if who not in frames:
+            if nr != "unlinkat":
+                continue                  # still resolving the parent directory
+            name = (by_proc[who][0][1].get("path") or "").split("/")[-1]
+            if name in ("", ".", "..") or name != e.get("path"):
+                return None
+            frames[who] = [e.get("dfd_id", 0), name]
+            started.add(who)
+        s = blank("sys", cid)
+        s["who"] = who
+        s["ret"] = e.get("ret", 0)
+        s["kind"] = ERRNO.get(-e["ret"], str(-e["ret"])) if e.get("ret", 0) < 0 else ""
+        if nr == "unlinkat":
+            s.update(nr="unlinkat", d1=e.get("dfd_id", 0), n1=e.get("path", ""), flag="REMOVEDIR" if e.get("flags", 0) & 0x200 else "")
+        elif nr == "openat" and e.get("dfd_class") == "tree":
+            s.update(nr="openat", d1=e.get("dfd_id", 0), n1=e.get("path", ""), rid=e.get("r_id", 0))
+            if e.get("path") == "." and e.get("ret", -1) >= 0:
+                fresh.add(who)        # Dir::read_from: a fresh iteration handle; the next getdents is the listing
+        elif nr == "getdents64":
+            names = [n for n in (e.get("names") or []) if n not in (".", "..")]
+            # the first getdents of a fresh iterator is the listing (ENOENT on a removed directory = empty: rustix
+            # ends the iteration); later ones only find the end of the directory
+            if who in fresh:
+                fresh.discard(who)
+                s.update(nr="getdents", d1=e.get("fd_id", 0), body=names, flag="names")
+            else:
+                s.update(nr="getdents", d1=e.get("fd_id", 0), body=names, flag="more" if names else "end")
+        else:
+            continue
+        out.append(s)
+    if sorted(k for k in frames) != list(range(procs)):
+        return None
+    init["frames"] = [frames[pi] for pi in range(procs)]
+    out.append(snap_event("snap", cid, res["final"]))
+    return out
+
+
 def trace_conformance(module, cfg, project, todo, batch=100, timeout=600):
     """validate many recorded cases against a trace specification in batched TLC runs (progress
     register protocol of TraceLookup); a rejected trace is recorded with its first unmatched event"""
